@@ -26,12 +26,12 @@ echo "demo package dir: $dest"
 run=$(grep -oE "\-run '?[A-Za-z0-9_|^$]+'?" $demo | head -1 | sed "s/-run //; s/'//g")
 [ -z "$run" ] && run=TestDemo${V}
 cp $demo $dest/${V}_demo_test.go
-(cd $WT && go test -vet=off -count=1 -run "$run" ./${hint%/}/ > /tmp/sv-clean.log 2>&1); clean=$?
+(cd $WT && go test -vet=off -count=1 -run "$run" ./${hint%/}/ > /tmp/sv-$P-$V-clean.log 2>&1); clean=$?
 git -C $WT apply $SRC/$V.patch.diff || { echo "PATCH DOES NOT APPLY"; exit 1; }
 (cd $WT && go build ./... ) || { echo "DOES NOT BUILD"; exit 1; }
-(cd $WT && go test -vet=off -count=1 -run "$run" ./${hint%/}/ > /tmp/sv-mut.log 2>&1); mut=$?
+(cd $WT && go test -vet=off -count=1 -run "$run" ./${hint%/}/ > /tmp/sv-$P-$V-mut.log 2>&1); mut=$?
 rm $dest/${V}_demo_test.go
-(cd $WT && go test -vet=off -count=1 ./... > /tmp/sv-suite.log 2>&1); suite=$?
+(cd $WT && go test -vet=off -count=1 ./... > /tmp/sv-$P-$V-suite.log 2>&1); suite=$?
 echo "demo on clean tree: exit $clean (want 0); demo with change: exit $mut (want !=0); repo suite with change: exit $suite (want 0)"
 if [ $clean -eq 0 ] && [ $mut -ne 0 ] && [ $suite -eq 0 ]; then
   d=seeded/$P-$OUTV; mkdir -p $d
@@ -48,5 +48,5 @@ json.dump({"property":P,"variant":V,"origin":"independent sub-agent given only t
 PY
   echo "FILED $d"
 else
-  echo "NOT KEPT"; tail -5 /tmp/sv-clean.log /tmp/sv-mut.log /tmp/sv-suite.log
+  echo "NOT KEPT"; tail -5 /tmp/sv-$P-$V-clean.log /tmp/sv-$P-$V-mut.log /tmp/sv-$P-$V-suite.log
 fi
